@@ -940,14 +940,14 @@ def run(ctx: common.Ctx):
             src = srcs[0]
             for cl in table_classes:
                 src.set(cl.__name__, rng.choice((USER, BUILTIN, BOTH)) if rng.random() < 0.3 else NONE)
-            g = DSDLCodeGenerator(root_ns, templates_dir=src.usr)
+            g = DSDLCodeGenerator(root_ns, templates_dir=src.usr, followlinks=rng.random() < 0.5)
         elif variant == "userdirs":
             # templates_dir=[common, specific, ...]: class templates spread over 2-3 directories
             ms = msets[rng.choice((2, 3))]
             for cl in table_classes:
                 if issubclass(cl, pydsdl.Any):
                     ms.set(cl.__name__, frozenset(rng.sample(range(len(ms.dirs)), rng.randint(1, len(ms.dirs)))) if rng.random() < 0.3 else frozenset())
-            g = DSDLCodeGenerator(root_ns, templates_dir=list(ms.dirs))
+            g = DSDLCodeGenerator(root_ns, templates_dir=list(ms.dirs), followlinks=rng.random() < 0.5)
         else:
             g = generator
         ld = g.dsdl_loader
@@ -1064,10 +1064,19 @@ class MultiSources:
     def loader(self, mode):
         from nunavut.jinja.loaders import DSDLTemplateLoader
         from nunavut._utilities import ResourceSearchPolicy
-        if mode == "fs":
-            return DSDLTemplateLoader(templates_dirs=list(self.dirs), package_name_for_templates=None)
+        # mode: both | first | fs, optionally "+follow" (followlinks=True; no links in the directories, so nothing may change) and
+        # "+alt" (builtin_template_path="alt": an empty template directory of the same package)
+        base, *opts = mode.split("+")
+        kw = {"followlinks": True} if "follow" in opts else {}
+        if "alt" in opts:
+            alt = self.pk.tpl.parent / "alt"
+            alt.mkdir(exist_ok=True)
+            (alt / "__init__.py").write_text("")
+            kw["builtin_template_path"] = "alt"
+        if base == "fs":
+            return DSDLTemplateLoader(templates_dirs=list(self.dirs), package_name_for_templates=None, **kw)
         return DSDLTemplateLoader(templates_dirs=list(self.dirs), package_name_for_templates=self.pk.pkgname,
-                                  search_policy=ResourceSearchPolicy.FIND_ALL if mode == "both" else ResourceSearchPolicy.FIND_FIRST)
+                                  search_policy=ResourceSearchPolicy.FIND_ALL if base == "both" else ResourceSearchPolicy.FIND_FIRST, **kw)
 
     def describe(self):
         return {"user_dirs": [self.listing(i) for i in range(len(self.dirs))], "builtin_templates": sorted(self.pk.builtin.values())}
@@ -1085,15 +1094,17 @@ def multidir_case(ctx, ms, mode, seq, index_of, by_name, jenv, check_enum):
     res = run_lookups(ld, seq)
     cache = {index_of.get(c, -1): ("<None>" if p is None else p.as_posix()) for c, p in ld._type_to_template_lookup_cache.items()}
     listings = [ms.listing(i) for i in range(len(ms.dirs))]
-    pk = ms.pk.listing(False) if has_pkg else None
+    alt = "+alt" in mode
+    pk = (["__init__.py"] if alt else ms.pk.listing(False)) if has_pkg else None
     out = [("seqd @ " + dirs_field(listings) + " " + opt_files(pk) + " " + ",".join(str(index_of[c]) for c in seq), (res, cache))]
     target, got = seq[-1], res[-1]
-    ustems, bstems = ms.user_stems(), (set(ms.pk.builtin) if has_pkg else set())
+    ustems, bstems = ms.user_stems(), (set(ms.pk.builtin) if has_pkg and not alt else set())
     exp = expected_resolution(target, ustems, bstems)
     got_stem = None if got is None else pathlib.PurePosixPath(got).stem
     rp = {"stream": "lookup-dirs", "mode": mode, **ms.describe(), "lookups": [c.__name__ for c in seq], "results": res, "expected": exp}
     ctx.case(("lookup-dirs", mode, tuple(map(tuple, listings)), tuple(sorted(bstems)), tuple(c.__name__ for c in seq)), bool(ustems or bstems))
     ctx.count(f"dirs={len(ms.dirs)},mode={mode}")
+    ctx.count("loader-option-followlinks" if "+follow" in mode else "loader-option-default-links")
     if exp is not None and exp[1] == "user":
         first = min(i for i in range(len(ms.dirs)) if exp[0] in {pathlib.PurePosixPath(r).stem for r in listings[i] if r.endswith(SUFFIX)})
         ctx.count("expect-user-template-in-" + ("first-directory" if first == 0 else "later-directory"))
@@ -1127,7 +1138,7 @@ def multidir_case(ctx, ms, mode, seq, index_of, by_name, jenv, check_enum):
                     impl_enum.append(f"u{i}:" + pathlib.Path(x).relative_to(d).as_posix())
                     break
             else:
-                impl_enum.append("b:" + pathlib.Path(x).relative_to(ms.pk.tpl).as_posix())
+                impl_enum.append("b:" + pathlib.Path(x).relative_to(ms.pk.tpl.parent / "alt" if alt else ms.pk.tpl).as_posix())
         out.append(("enum " + dirs_field(listings) + " " + opt_files(pk), sorted(impl_enum)))
         ctx.count("enumerations")
         for e in impl_enum:
@@ -1198,7 +1209,7 @@ def run_multidir_stream(ctx, ask, table_classes, index_of, by_name, jenv, corpus
                     ms.set(near.__name__, a)
                     if far is not None:
                         ms.set(far.__name__, b)
-                    mode = "both" if k % 4 else "first"
+                    mode = ("both" if k % 4 else "first") + ("+follow" if (k // 2) % 2 else "") + ("+alt" if k % 7 == 3 else "")
                     seq = [target]
                     if k % 5 == 0:
                         seq = [rng.choice(chain + target.__subclasses__()) for _ in range(rng.randint(1, 3))] + [target]
@@ -1223,7 +1234,8 @@ def run_multidir_stream(ctx, ask, table_classes, index_of, by_name, jenv, corpus
             r = rng.random()
             ms.set(c.__name__, frozenset() if r < 0.45 else frozenset(rng.sample(list(range(n)) + ["p"], rng.randint(1, n + 1))))
         seq = [rng.choice(under) for _ in range(rng.randint(0, 3))] + [target]
-        for ln, im in multidir_case(ctx, ms, rng.choice(["both", "both", "first", "fs"]), seq, index_of, by_name, jenv, check_enum=(it % 5 == 0)):
+        rmode = rng.choice(["both", "both", "first", "fs"]) + rng.choice(["", "+follow"]) + rng.choice(["", "", "", "+alt"])
+        for ln, im in multidir_case(ctx, ms, rmode, seq, index_of, by_name, jenv, check_enum=(it % 5 == 0)):
             lines.append(ln)
             impls.append(im)
         nconf += 1
